@@ -387,17 +387,16 @@ def spParseArgs {V} (A : Alg V) (pre : Pre) (E : Engine V) (ps : PState V) (user
   | .ok ns rest => if rest.isEmpty then .ok ns [] else .exit 2
   | o => o
 
-/-! ### `ArgumentParser.set_defaults(self, config_path=None, **kwargs)` (parsing.py:385-438): which keywords reach argparse -/
+/-! ### `ArgumentParser.set_defaults(self, config_path=None, /, **kwargs)` (parsing.py:385-438): which keywords reach argparse -/
 
-/-- the keyword names that end up in `self._defaults` (`super().set_defaults(**kwargs)`, :438): a keyword called
-    `config_path` binds the method's own first parameter (a file to READ, :387-388) and the keywords naming a registered
-    dataclass destination are popped into the wrappers (:402-429) -/
+/-- the keyword names that end up in `self._defaults` (`super().set_defaults(**kwargs)`, :438): the keywords naming a
+    registered dataclass destination are popped into the wrappers (:402-429); every other keyword — one called
+    `config_path` included, the method's own first parameter being positional-only — is passed on -/
 def setDefaultsPassed (wrapperDests : List Str) (kw : List Str) : List Str :=
-  kw.filter (fun k => !(k == "config_path".toList) && !(wrapperDests.contains k))
+  kw.filter (fun k => !(wrapperDests.contains k))
 
-/-- `set_defaults` tries to read a file (`if config_path: defaults = read_file(config_path)`, :387-388; an exception
-    of `read_file` escapes before anything reaches `_defaults`); `cpTruthy` = the value given for `config_path` is truthy -/
-def setDefaultsReadsFile (kw : List Str) (cpTruthy : Bool) : Bool := kw.contains "config_path".toList && cpTruthy
+/-- keyword arguments never make `set_defaults` read a file (only the positional `config_path` does, :387-388) -/
+def setDefaultsReadsFile (_kw : List Str) : Bool := false
 
 /-! ### a concrete value algebra (used by the driver and by the examples) -/
 
